@@ -92,6 +92,6 @@ def st_case(version):
 
 
 def parts(tier):
-    n = 130 if tier == "quick" else 500
-    return [Part("gfa1", prop, strategy=st_case("gfa1"), n=n, quick_shards=2),
-            Part("gfa2", prop, strategy=st_case("gfa2"), n=n, quick_shards=2)]
+    n = 300 if tier == "quick" else 1000
+    return [Part("gfa1", prop, strategy=st_case("gfa1"), n=n, quick_shards=4),
+            Part("gfa2", prop, strategy=st_case("gfa2"), n=n, quick_shards=4)]
